@@ -361,6 +361,10 @@ modint_field!(f_mi_25519, ModInt256<0xFFFFFFFFFFFFFFED, 0xFFFFFFFFFFFFFFFF, 0xFF
 modint_field!(f_mi_spec1, ModInt256<0xFFFFFFFFFFFFFF27, 0xFFFFFFFFFFFFFFFE, 0x0000000000000000, 0xFFFFFFFFFFFFFFFF>);
 modint_field!(f_mi_spec2, ModInt256<0xFFFFFFFFFFFFFF43, 0xFFFFFFFFFFFFFFFF, 0xFFFFFFFFFFFFFFFF, 0xFFFFFFFFFFFFFFFF>);
 modint_field!(f_mi_spec3, ModInt256<0x20CD9255FD615923, 0xACAFC103CD968A25, 0xFFFFFFFFFFFFFFFE, 0xFFFFFFFFFFFFFFFF>);
+// moduli with long runs of ones in the low limbs (carry chains of the compile-time constants and of +1 / halving)
+modint_field!(f_mi_spec4, ModInt256<0xFFFFFFFFFFFFFFFF, 0xFFFFFFFFFFFFFFFF, 0xFFFFFFFFFFFFFFFF, 0xFFFFFFFFFFFFFFFB>);
+modint_field!(f_mi_spec5, ModInt256<0xFFFFFFFFFFFFFFFF, 0xFFFFFFFFFFFFFFFF, 0xFFFFFFFFFFFFFF70, 0xFFFFFFFFFFFFFFFF>);
+modint_field!(f_mi_spec6, ModInt256<0xFFFFFFFFFFFFFFFF, 0xFFFFFFFFFFFFFFFF, 0xFFFFFFFFFFFFFFFF, 0x8000000000000021>);
 // 193-bit prime 2^192 + 133 (smallest supported size class).
 modint_field!(f_mi_193, ModInt256<0x0000000000000085, 0x0000000000000000, 0x0000000000000000, 0x0000000000000001>);
 
@@ -751,6 +755,9 @@ pub struct FieldRegs {
     mi_spec1: Vec<ModInt256<0xFFFFFFFFFFFFFF27, 0xFFFFFFFFFFFFFFFE, 0x0000000000000000, 0xFFFFFFFFFFFFFFFF>>,
     mi_spec2: Vec<ModInt256<0xFFFFFFFFFFFFFF43, 0xFFFFFFFFFFFFFFFF, 0xFFFFFFFFFFFFFFFF, 0xFFFFFFFFFFFFFFFF>>,
     mi_spec3: Vec<ModInt256<0x20CD9255FD615923, 0xACAFC103CD968A25, 0xFFFFFFFFFFFFFFFE, 0xFFFFFFFFFFFFFFFF>>,
+    mi_spec4: Vec<ModInt256<0xFFFFFFFFFFFFFFFF, 0xFFFFFFFFFFFFFFFF, 0xFFFFFFFFFFFFFFFF, 0xFFFFFFFFFFFFFFFB>>,
+    mi_spec5: Vec<ModInt256<0xFFFFFFFFFFFFFFFF, 0xFFFFFFFFFFFFFFFF, 0xFFFFFFFFFFFFFF70, 0xFFFFFFFFFFFFFFFF>>,
+    mi_spec6: Vec<ModInt256<0xFFFFFFFFFFFFFFFF, 0xFFFFFFFFFFFFFFFF, 0xFFFFFFFFFFFFFFFF, 0x8000000000000021>>,
     mi_193: Vec<ModInt256<0x0000000000000085, 0x0000000000000000, 0x0000000000000000, 0x0000000000000001>>,
     #[cfg(not(feature = "w32"))]
     g127: Vec<gg::G127>,
@@ -790,6 +797,9 @@ pub fn dispatch(ty: &str, op: &str, a: &[&str], r: &mut FieldRegs) -> R {
         "mi_spec1" => f_mi_spec1(op, a, &mut r.mi_spec1),
         "mi_spec2" => f_mi_spec2(op, a, &mut r.mi_spec2),
         "mi_spec3" => f_mi_spec3(op, a, &mut r.mi_spec3),
+        "mi_spec4" => f_mi_spec4(op, a, &mut r.mi_spec4),
+        "mi_spec5" => f_mi_spec5(op, a, &mut r.mi_spec5),
+        "mi_spec6" => f_mi_spec6(op, a, &mut r.mi_spec6),
         "mi_193" => f_mi_193(op, a, &mut r.mi_193),
         #[cfg(not(feature = "w32"))]
         "g127" => f_g127(op, a, &mut r.g127),
